@@ -51,6 +51,9 @@ func (m MemoryCache) Get(height int64, key []byte) ([]byte, error) {
 	if m.isHeightSafeToRead(height) {
 		for i := range m.pastHeights {
 			if m.pastHeights[i].height == height {
+				if _, ok := m.pastHeights[i].data[string(key)]; !ok {
+					return nil, nil // absent at this height: same answer as the tree
+				}
 				return []byte(m.pastHeights[i].data[string(key)]), nil
 			}
 		}
